@@ -192,7 +192,7 @@ pub fn required_probes(property: &str) -> Vec<&'static str> {
     match property {
         "C01" => vec!["c01_concurrent_open_txns", "attributed_rows", "c01_multi_statement_txn"],
         "C02" => vec!["c02_handoff", "c02_handoff_after_abnormal_stop"],
-        "C03" => vec!["relay_compared_steps", "relay_reply_ge_8196", "net_split_read"],
+        "C03" => vec!["relay_compared_steps", "relay_reply_ge_8196", "net_split_read", "client_tls_established", "relay_pooler_error_reply"],
         "C04" => vec!["c04_pool_full", "c04_probe_served", "c04_step_waited_20ms"],
         "C12" => vec!["c12_checked_statements", "c12_nondefault_value_checked", "c12_parameter_status_seen"],
         "C07" => vec!["c07_some_ban_seen", "c07_routed_around_ban", "c07_failure_judged", "c07_break_mid_statement", "c07_transparent_failover_after_timeout", "c07_ban_ended_and_replica_used_again"],
@@ -479,10 +479,10 @@ fn components(property: &str) -> serde_json::Value {
         "kernel socket options".to_string(),
         "multi-thread-only races between two awaits".to_string(),
     ];
-    if property == "C09" {
+    if property == "C09" || property == "C03" {
         real.push("tokio-rustls / rustls 0.21 on both ends of the client connection in every fifth run (PgCat's acceptor with the repository's test certificate; scripted clients with a connector that accepts any certificate)".to_string());
     } else {
-        not_exercised.push("TLS towards clients (exercised in the C09 family only)".to_string());
+        not_exercised.push("TLS towards clients (exercised in the C03 and C09 families only)".to_string());
     }
     if property == "C11" {
         stub.push("process memory limit: the simulator's global allocator counts live bytes and ends the run at the allocation that would cross 1 GiB, naming the requesting function".to_string());
@@ -503,7 +503,7 @@ fn rule_of(property: &str) -> String {
     let fam = match property {
         "C01" => "2-8 clients over pools of 1-3 connections, both pool modes, mixed simple/extended/pipelined/COPY transactions, network swarm (latency, segmentation, short reads, chaos yields); every third run adds client aborts and slow servers; half of the runs include CopyDone/CopyFail outside COPY (also in session mode); a sixth of the runs make a server answer more slowly than the checkout health check waits",
         "C02" => "pool_size 1; client A dirties the session and stops in one of 16 ways (commit, terminate, socket drop idle/in txn/in failed txn/in COPY, cut at a message boundary or PRNG byte offset, vanish mid big reply, malformed message, Bind of unknown statement, idle-in-transaction timeout, statement timeout); the commit stop changes session state inside the transaction block (PREPARE, SET, SET LOCAL, then COMMIT or ROLLBACK); a tenth of the runs make the server answer more slowly than the checkout health check waits while B arrives; client B inherits the connection",
-        "C03" => "reply streams with row sizes around the 8196-byte flush threshold, multi-statement, notices, errors, portal suspension, COPY in/out/fail, pipelined batches; segmentation from 1-byte dribble to whole buffer, small send buffers, short reads",
+        "C03" => "reply streams with row sizes around the 8196-byte flush threshold, multi-statement, notices, errors, portal suspension, COPY in/out/fail, pipelined batches; segmentation from 1-byte dribble to whole buffer, small send buffers, short reads; simple queries that go on after COPY FROM STDIN; every fifth run over TLS (three quarters of the clients); every eighth run an extended batch is refused at checkout (the only connection is held for longer than connect_timeout) and the same client sends further batches; every fourth run with the statement cache on",
         "C04" => "clients >> pool_size, both modes; every second run adds client aborts at PRNG points, server connection kills, connect timeouts shorter than hold times; capacity probe and admin console after quiescence",
         "C08" => "statement cache on, pool cache sizes {1,2,3,8}, 2-4 clients over 1-3 connections per server; shared names s1..s3 with per-client texts, identical texts shared between clients (attribution by bind parameter), Parse/Describe/Bind/Execute/Close in all groupings, re-Parse after Close, Parse errors, eviction pressure, batches that use two named statements (one prepared earlier, one prepared in the batch), SQL-level PREPARE between transactions (the pooler then wipes the server connection's statements); every fifth run uses statement pairs whose (query, num_params, types) concatenations coincide",
         "C07" => "one shard with 0-3 replicas, with or without a primary, both load-balancing modes; per-server fault scripts (down = refuse + kill connections, hung after accept, rejects startup, black hole), statements that make the server close mid-reply (inside the first relayed piece, or after 8-30 kB of a 32 kB reply) or go quiet for good after part of the reply, admin BAN/UNBAN, ban_time 1-4 s, clients asking for primary/replica/any as sequences of short sessions; every fourth run is the ban-expiry sub-family (admin ban with duration, fault ban with ban_time, UNBAN)",
